@@ -358,7 +358,7 @@ def gen_body(ex, conc):
                 tt = conc.regions[tgt[0]]["region"].elem
             if tt is not None and tt.kind in ("int", "bool", "double"):
                 ct = ctype_c(tt)
-                L.append("  if (%s && __sanitizer_get_ownership((void *) %s)) { size_t n_ = __sanitizer_get_allocated_size((void *) %s) / sizeof(%s); if (n_ > 4096) n_ = 4096;" % (a_, a_, a_, ct))
+                L.append("  if (%s && __sanitizer_get_ownership((void *) %s)) { size_t n_ = __sanitizer_get_allocated_size((void *) %s) / sizeof(%s); printf(\"M N:r%d:%s %%zu\\n\", n_); if (n_ > 4096) n_ = 4096;" % (a_, a_, a_, ct, rid, path))
                 if tt.kind == "double":
                     L.append("    vf_dump_d(\"N:r%d:%s\", (const double *) %s, n_); }" % (rid, path, a_))
                 else:
@@ -413,7 +413,7 @@ def concrete_array(ft, vals, default=None):
 
 
 def parse_dump(out):
-    d = {"I": {}, "D": {}, "Q": {}, "P": {}, "ret": None, "done": False}
+    d = {"I": {}, "D": {}, "Q": {}, "P": {}, "M": {}, "ret": None, "done": False}
     for line in out.splitlines():
         t = line.split()
         if not t:
@@ -430,6 +430,8 @@ def parse_dump(out):
                 d["D"][t[1]] = vals
         elif t[0] == "Q":
             d["Q"][t[1]] = (t[2], int(t[3]))
+        elif t[0] == "M":
+            d["M"][t[1]] = int(t[2])
         elif t[0] == "P":
             d["P"][t[1]] = t[2]
         elif t[0] == "DONE":
@@ -600,7 +602,7 @@ def evaluate(ex, conc, s, res, run):
                 if got is not None and ft.to.kind == "int" and not ft.to.signed:
                     got = [v + (1 << 64) if v < 0 else v for v in got]
                 if got is not None:
-                    nr = Region("post:" + r.name + "." + path, ft.to, z3.IntVal(len(got)))
+                    nr = Region("post:" + r.name + "." + path, ft.to, z3.IntVal(d["M"].get(tagn, len(got))))
                     post.pmem[(rid, path)] = Ptr(nr)
                     post.set_array(nr, "", concrete_array(ft.to, got))
                     continue
